@@ -630,7 +630,7 @@ func (w *c30World) tick() {
 
 func TestC30_LivenessPolicy(t *testing.T) {
 	c30Setup()
-	vk.Check(t, 4000, func(rt *rapid.T) {
+	vk.Check(t, 10000, func(rt *rapid.T) {
 		w := c30NewWorld(rt)
 		w.disconnectInvalid = rapid.Bool().Draw(rt, "disconnectInvalid")
 		w.f.disconnectInvalid.Store(w.disconnectInvalid)
